@@ -115,7 +115,7 @@ def compile_pattern(compiler, pattern):
             )
         )
 
-    if str(value) in __SINGLETONS__:
+    if isinstance(value, Symbol) and str(value) in __SINGLETONS__:
         return asty.MatchSingleton(
             value,
             value=compiler.compile(value).force_expr.value,
@@ -149,7 +149,9 @@ def compile_pattern(compiler, pattern):
         ]
         return asty.MatchSequence(value, patterns=patterns)
     elif is_unpack("iterable", value):
-        return compiler.scope.assign(asty.MatchStar(value, name=mangle(value[1])))
+        return compiler.scope.assign(asty.MatchStar(
+            value,
+            name=None if value[1] == Symbol(__STAR_WILD__) else mangle(value[1])))
 
     elif isinstance(value, Dict):
         kvs, rest = value
@@ -225,6 +227,7 @@ def translate(repo):
     if sorted(singletons) != ["False", "None", "True"]:
         raise ShapeChanged(RM + ": compile_pattern singleton names are not None/True/False")
     wild = cstr(h["__WILD__"], "wildcard")
+    star_wild = cstr(h["__STAR_WILD__"], "star wildcard")
     if cstr(h["__OR__"], "or") != g["__OR__"] or cstr(h["__DOT__"], "dot") != g["__DOT__"] or g["__DOT__"] != g["__DOT2__"]:
         raise ShapeChanged(RM + ": compile_pattern dispatches on other heads than the grammar")
     # how a class pattern's keyword becomes an attribute name: kwd.name (raw) or mangle(kwd.name)
@@ -240,6 +243,7 @@ def translate(repo):
          "From Coq Require Import List String.", "Import ListNotations.", "Open Scope string_scope.", ""]
     o.append("Definition singleton_names : list string := %s." % clist(q(x) for x in singletons))
     o.append("Definition wildcard_name : string := %s." % q(wild))
+    o.append("Definition star_wildcard_name : string := %s." % q(star_wild))
     o.append("Definition or_head : string := %s." % q(g["__OR__"]))
     o.append("Definition dot_head : string := %s." % q(g["__DOT__"]))
     o.append("Definition as_keyword : string := %s." % q(g["__AS__"]))
